@@ -484,6 +484,9 @@ def strata(tier, seed):
     ktop = 64 if tier == 'quick' else 200
     lb = [dict(n=[k] if k % 2 else [k, 5], ms=sorted({k - 1, k, k + 1, 2 * k, 2 * k + 1, 3 * k}), seeds=[0, 1]) for k in range(5, ktop + 1)]
     yield Stratum('lhs: every mode size up to %d, sample counts around its multiples' % ktop, lb, 'lhs', size=len(lb), chunk=4, bounds={'n': [5, ktop]})
+    mtop = 420 if tier == 'quick' else 1200
+    ls2 = [dict(n=[k], ms=list(range(lo, min(lo + 60, mtop + 1))), seeds=[0]) for k in range(1, 9) for lo in range(13, mtop + 1, 60)]
+    yield Stratum('lhs: mode sizes 1..8, every sample count up to %d' % mtop, ls2, 'lhs', size=len(ls2), chunk=4, bounds={'n': [1, 8], 'm': [13, mtop]})
     ms = [dict(n=[4] * 34, ms=[1], rs=[2, 3], seeds=[0]), dict(n=[10] * 21, ms=[1], rs=[2], seeds=[1]), dict(n=[2] * 70, ms=[2], rs=[2], seeds=[0]),
           dict(n=[40, 50, 60], ms=[3], rs=[5], seeds=[0]), dict(n=[300, 7], ms=[3], rs=[2], seeds=[0]),
           dict(n=[3, 2, 3], ms=[1], rs=[2], seeds=[0], many=20001), dict(n=[2, 3], ms=[1], rs=[2], seeds=[0], many=40001)] + \
